@@ -62,11 +62,12 @@ func c15Directed(e func(string)) {
 		// after the close returned
 		e(h + "A=offer:1 ; C=close ; A=take ; A=poll ; A=twt ; A=offer:2 ; A=put:3 ; A=count ; A=getch ; A=isclosed")
 	}
-	// loader windows (c=1: the second item goes to the pool and wakes the loader)
-	e("bcq c=1 b=3: I+bcq.loader.afterClosedCheck ; A=offer:1 ; A=offer:2 ; I?bcq.loader.afterClosedCheck ; C=close ; I>bcq.loader.afterClosedCheck ; A=take")
-	e("bcq c=1 b=3: I+bcq.loader.polled ; A=offer:1 ; A=offer:2 ; I?bcq.loader.polled ; C=close! ; I>bcq.loader.polled ; C> ; A=poll")
-	e("bcq c=1 b=3: I+bcq.loader.polled ; A=offer:1 ; A=offer:2 ; I?bcq.loader.polled ; B=take! ; C=close! ; I>bcq.loader.polled ; C> ; A=take")
-	e("bcq c=0 b=3: I+bcq.loader.afterClosedCheck ; A=offer:1 ; I?bcq.loader.afterClosedCheck ; B=take! ; C=close ; I>bcq.loader.afterClosedCheck ; B>")
+	// loader windows (c=1: the second item goes to the pool and wakes the loader); afterwards calls that need the
+	// queue's lock (Offer/Put: write lock, GetChannel: read lock) — the loader must not leave with the lock held
+	e("bcq c=1 b=3: I+bcq.loader.afterClosedCheck ; A=offer:1 ; A=offer:2 ; I?bcq.loader.afterClosedCheck ; C=close ; I>bcq.loader.afterClosedCheck ; A=take ; A=offer:9 ; A=getch")
+	e("bcq c=1 b=3: I+bcq.loader.polled ; A=offer:1 ; A=offer:2 ; I?bcq.loader.polled ; C=close! ; I>bcq.loader.polled ; C> ; A=poll ; A=offer:9 ; A=getch")
+	e("bcq c=1 b=3: I+bcq.loader.polled ; A=offer:1 ; A=offer:2 ; I?bcq.loader.polled ; B=take! ; C=close! ; I>bcq.loader.polled ; C> ; A=take ; A=put:9 ; A=getch")
+	e("bcq c=0 b=3: I+bcq.loader.afterClosedCheck ; A=offer:1 ; I?bcq.loader.afterClosedCheck ; B=take! ; C=close ; I>bcq.loader.afterClosedCheck ; B> ; A=offer:9 ; A=getch")
 	// ---- coroutines (the target G finishes = `ret`)
 	e("cor: A=yf:5@cor.closesafe.beforeLock ; G=ret ; A> ; A=isdone")
 	e("cor: G=ret@cor.close.afterFlag ; A=yf:5 ; A=isdone ; G> ; B=yf:6")
